@@ -132,7 +132,8 @@ def unit_diff(args):
     """args: dict(kind, state, k, classes, base cfg dict, variants: list of (label, cfg overrides, chunk lens or None))
     For every path a of the base configuration, explore each variant under pc_a and require equal observations."""
     t0 = time.time()
-    res = {"unit": "%s %s k=%d cls=%s" % (args["kind"], tok.state_spec(_tup(args["state"])), args["k"], args.get("classes")),
+    res = {"unit": "%s %s %r+k=%d+%r cls=%s%s" % (args["kind"], tok.state_spec(_tup(args["state"])), "".join(map(chr, args.get("prefix") or [])), args["k"],
+                                                    "".join(map(chr, args.get("suffix") or []))[:8], args.get("classes"), " ee" if args["base"].get("exact_errors") else ""),
            "paths": 0, "queries": 0, "obligations": 0, "violations": [], "panics": [], "errors": [], "livelock": 0}
     try:
         k = args["k"]
@@ -142,6 +143,9 @@ def unit_diff(args):
             extra.append(chars[i] == v)
         if args.get("forbid_first") is not None and chars:
             extra.append(chars[0] != args["forbid_first"])
+        for x in args.get("exclude", ""):
+            for c_ in chars:
+                extra.append(c_ != ord(x))
         if args.get("prefix"):
             chars = list(args["prefix"]) + chars
         suffix = list(args.get("suffix") or [])
@@ -150,7 +154,10 @@ def unit_diff(args):
         base = dict(args["base"])
         base["state"] = _tup(args["state"])
         stats = {}
-        A = tok.explore(_PROG, mk_cfg(base, constraints=cons + extra), chars, stats=stats)
+        bl = args.get("base_lens")
+        if bl is not None and suffix:
+            bl = list(bl) + [len(suffix)]
+        A = tok.explore(_PROG, mk_cfg(base, constraints=cons + extra, chunks=split(chars, bl) if bl is not None else None), chars, stats=stats)
         keep_err = args.get("keep_errors", True)
         for a in A:
             check_path_sanity(res, a, chars, base, None, args)
